@@ -60,7 +60,10 @@ class DCheck:
                 if info.get("sweeps") is not None:
                     ex.sweeps = info["sweeps"]  # type: ignore[attr-defined]
         info["budget"] = budget
-        if self.w_share > 0 and ch.flip("engine.w", self.w_share):
+        use_w = self.w_share > 0 and ch.flip("engine.w", self.w_share)
+        if self.w_share > 0 and getattr(prog, "spec", {}).get("force_w"):
+            use_w = True        # a program family that only makes sense with interleaved workers
+        if use_w:
             from .common import run_w
 
             knobs.peer_emulation = bool(ch.pick("k.peer", 2))
@@ -118,7 +121,7 @@ class DCheck:
 
 
 def one_violation(prop: str, problems: list[tuple[str, str, str]], h: Any = None, ref_h: Any = None,
-                  prog: Any = None) -> list[dict[str, Any]]:
+                  prog: Any = None, fs: Any = None) -> list[dict[str, Any]]:
     """problems: (class, message, signature tail).  When the history shows a message of an earlier loop
     iteration acting on a re-armed stage, that diagnosis becomes part of the signature.  ``ref_h``: history of
     the reference run the outcome was compared with -- the in-order run is not immune to that defect (a
@@ -188,5 +191,15 @@ def one_violation(prop: str, problems: list[tuple[str, str, str]], h: Any = None
             problems = problems + [("diagnosis", f"the jump from {x['source']} back to {x['target']} re-armed both but left the completed "
                                                  f"stage(s) {x['not_rearmed']} between them untouched (fan-in with an upstream outside "
                                                  f"the re-armed set): nothing restarts {x['source']}", "")]
+    rearmedchild: list[str] = []
+    if h is not None and fs is not None:
+        from sim.oracles import rearmed_after_children
+
+        rc = rearmed_after_children(h, fs)
+        if rc:
+            rearmedchild = rc
+            sig += "<-rearmed-after-child-never-restarted"
+            problems = problems + [("diagnosis", f"a jump re-armed the after / on-failure stage(s) {rc} of a stage that later failed again: "
+                                                 f"CompleteStage takes the NOT_STARTED leftovers for children in flight and waits for them", "")]
     msg = " || ".join(f"{c}: {m}" for c, m, _ in problems)
-    return [V(prop, cls, msg, sig=sig, classes=[c for c, _, _ in problems], stale=stale, planlost=planlost, jumppath=jumppath, sweepwindow=sweepwindow, tails=tails)]
+    return [V(prop, cls, msg, rearmedchild=rearmedchild, sig=sig, classes=[c for c, _, _ in problems], stale=stale, planlost=planlost, jumppath=jumppath, sweepwindow=sweepwindow, tails=tails)]
